@@ -105,8 +105,11 @@ CLAIMED = {
              "chmod / chmod_b / chown / chown_b call of an alphabet (octal incl. 0 and special bits, symbolic incl. results of 000, malformed, follow x "
              "recursion x dirs / files selectors) in every reachable tree of a bounded namespace: full pre/post state vs the mirror of _chmod / _chown, and "
              "an independent Python statement of 'exactly the targeted entries get exactly the requested value, nothing else changes, error => no change'; "
-             "is_exec / is_readonly vs mode() over all 512 rwx values. Partial: 'exactly the targeted entries' for all trees is decided by the bounded "
-             "enumeration and the judge, not yet by a Coq theorem over the traversal; the Stdfs side runs under C02.",
+             "is_exec / is_readonly vs mode() over all 512 rwx values. Tree-level theorems over the mirror (Memfs/ChmodFacts.v): chown sets the "
+             "requested ids on exactly the entries its traversal yields and changes nothing else; chmod, whatever it returns, changes nothing but "
+             "mode fields and only of entries its traversal names. Partial: which entries a traversal yields is C08's subject (judged there), and "
+             "that each named entry's mode becomes exactly the grammar's value is decided at tree level by the enumeration and the judge; the "
+             "Stdfs side runs under C02.",
         note="Trusted: Coq kernel; hooks sys::verif::{sym_mode, memfs_entry, memfs_snapshot}; tools/walkspec.py + c_mem.py sym_spec as the independent "
              "statement; KF-C11-octal-zero recorded; extraction, driver, harness, differ.",
         technique="Coq proof (state machine = clause fold) + exhaustive expression correspondence + model-guided BFS judged on pre/post snapshots",
